@@ -294,3 +294,5 @@ def run(ctx):
     errdisc.check(ctx, 'C14.RD', 'C14', 6)
     from .. import boundaries as _b
     _b.check_predicates(ctx, 'C14.RP', 'C14')
+    from .. import boundaries as _b
+    _b.check_counts(ctx, 'C14.RQ', 'C14')
